@@ -358,4 +358,197 @@ theorem readPosition_roundtrip (n : Node) (col : List Node) (hok : ColOK n col) 
       intro m _
       exact (decElem_other n m hns hnl' hc).symm
 
+/-! ### the lock-step walk over a static template -/
+
+theorem replicate_any_isEmpty {α} (k : Nat) (a : α) (l : List α) :
+    (List.replicate k (a :: l)).any (·.isEmpty) = false := by
+  induction k with
+  | zero => rfl
+  | succ k ih => simp [List.replicate_succ, ih]
+
+theorem replicate_filterMap_head {α} (k : Nat) (a : α) (l : List α) :
+    (List.replicate k (a :: l)).filterMap (·.head?) = List.replicate k a := by
+  induction k with
+  | zero => rfl
+  | succ k ih => simp [List.replicate_succ, ih]
+
+theorem replicate_map_drop1 {α} (k : Nat) (a : α) (l : List α) :
+    (List.replicate k (a :: l)).map (·.drop 1) = List.replicate k l := by
+  induction k with
+  | zero => rfl
+  | succ k ih => simp [List.replicate_succ, ih]
+
+theorem zipWith_replicate {α β γ} (f : α → β → γ) (k : Nat) (a : α) (b : β) :
+    List.zipWith f (List.replicate k a) (List.replicate k b) = List.replicate k (f a b) := by
+  induction k with
+  | zero => rfl
+  | succ k ih => simp [List.replicate_succ, ih]
+
+theorem zipWith_replicate_left_const {α β γ} (f : α → β → γ) (c : γ) (a : α) : ∀ (l : List β),
+    (∀ x ∈ l, f a x = c) → List.zipWith f (List.replicate l.length a) l = List.replicate l.length c := by
+  intro l
+  induction l with
+  | nil => intro _; rfl
+  | cons x l ih =>
+    intro h
+    simp only [List.length_cons, List.replicate_succ, List.zipWith_cons_cons]
+    rw [h x (by simp), ih (fun y hy => h y (by simp [hy]))]
+
+theorem decElem_shape (n m : Node) (hnie : n.enc.type ≠ .ieee) : (decElem n m).enc = n.enc ∧ (decElem n m).desc = n.desc := by
+  by_cases hs : n.flags.skipped = true
+  · unfold decElem; simp [hs]
+  · have hns : n.flags.skipped = false := by simpa using hs
+    have ha := afStep_shape n m
+    by_cases hnl : numLike n.enc.type = true
+    · rw [decElem_numLike n m hns hnl]
+      have := setBitsValue_shape (afStep n m) (value2bits m)
+      exact ⟨by rw [this.2.1, ha.1], by rw [this.1, ha.2.1]⟩
+    · have hnl' : numLike n.enc.type = false := by simpa using hnl
+      by_cases hc : n.enc.type = .ccitt
+      · unfold decElem
+        simp only [hns, Bool.false_eq_true, if_false, hc]
+        have hm := mkvalNode_enc (afStep n m)
+        exact ⟨by rw [hm.1, ha.1], by rw [hm.2, ha.2.1]⟩
+      · rw [decElem_other n m hns hnl' hc]; exact ⟨ha.1, ha.2.1⟩
+
+theorem colBits_cons (m0 : Node) (t : List Node) :
+    colBits (m0 :: t) = if m0.flags.skipped then [] else afColBits (m0 :: t) ++ bodyColBits (m0 :: t) := rfl
+
+/-- position `n` of the decoder's list against the column of encoder nodes for it -/
+structure PosOK (k : Nat) (n : Node) (col : List Node) : Prop where
+  len : col.length = k + 1
+  skipped : ∀ m ∈ col, m.flags.skipped = n.flags.skipped
+  ok : n.flags.skipped = false → ColOK n col
+
+/-- what the walk leaves at position `n` for every subset -/
+def decPos (k : Nat) (n : Node) (col : List Node) : List Node :=
+  if n.flags.skipped then List.replicate (k + 1) n else col.map (decElem n)
+
+/-- the per-subset lists after the positions `cols` have been pushed (newest first, as the decoder
+keeps them) -/
+def pushCols : List (List Node) → List (List Node) → List (List Node)
+  | [], d => d
+  | c :: cs, d => pushCols cs (List.zipWith (fun n l => n :: l) c d)
+
+/-- **the compressed walk over a static template** (whole dataset, `k+1` subsets): from the bits the
+encoder wrote column by column, the lock-step decoder leaves `decPos` at every position of every
+subset, raises no error, never dereferences a missing node, and ends right after the last column -/
+theorem decodeCompressedLoop_static (T : Tables) (edition s4max : Nat) (g : Range) (k : Nat)
+    (hfull : g.from_ ≤ 0) (hn : g.nsub = k + 1) :
+    ∀ (nodes : List Node) (cols : List (List Node)) (fuel : Nat) (ddo : DDO) (st : CompSt) (tail : List Bool),
+    nodes.length < fuel → staticOK T edition ddo nodes = true → List.Forall₂ (PosOK k) nodes cols →
+    st.todos = List.replicate (k + 1) nodes → st.ddos = List.replicate (k + 1) ddo → st.dones.length = k + 1 →
+    st.pendingDelayed = false → RInv st.r → st.r.bits = cols.flatMap colBits ++ tail →
+    ∃ st', decodeCompressedLoop T edition s4max g fuel st = .ok st' ∧ st'.invalid = st.invalid ∧
+      st'.todos = List.replicate (k + 1) [] ∧
+      st'.dones = pushCols (List.zipWith (decPos k) nodes cols) st.dones ∧ st'.r.bits = tail := by
+  intro nodes
+  induction nodes with
+  | nil =>
+    intro cols fuel ddo st tail hf _ hp ht _ _ _ _ hb
+    cases hp
+    cases fuel with
+    | zero => simp at hf
+    | succ f =>
+      refine ⟨st, ?_, rfl, ht, by simp [pushCols], by simpa using hb⟩
+      unfold decodeCompressedLoop
+      rw [ht]
+      simp [List.replicate_succ]
+  | cons n ns ih =>
+    intro cols fuel ddo st tail hf hok hp ht hd hdl hpd hI hb
+    cases hp with
+    | cons hpos hps =>
+    rename_i col cols'
+    cases fuel with
+    | zero => simp at hf
+    | succ f =>
+    simp only [staticOK, Bool.and_eq_true, decide_eq_true_eq, Bool.not_eq_true', Bool.not_eq_eq_eq_not,
+      Bool.not_true] at hok
+    obtain ⟨⟨⟨⟨hfix, herr⟩, hnc⟩, hnd⟩, hrest⟩ := hok
+    generalize ha : applyTables2node T edition ddo n = a at hfix herr hrest
+    obtain ⟨ddo1, n1, err⟩ := a
+    simp only at hfix herr hrest
+    subst hfix
+    subst herr
+    rw [List.flatMap_cons, List.append_assoc] at hb
+    -- the shape of one iteration
+    have happ : List.zipWith (fun ddo n => applyTables2node T edition ddo n) (List.replicate (k + 1) ddo)
+        (List.replicate (k + 1) n1) = List.replicate (k + 1) (ddo1, n1, false) := by
+      rw [zipWith_replicate, ha]
+    unfold decodeCompressedLoop
+    rw [ht]
+    simp only [List.replicate_succ]
+    rw [← List.replicate_succ]
+    simp only [replicate_any_isEmpty, Bool.false_eq_true, if_false, replicate_filterMap_head, replicate_map_drop1,
+      hd, happ, List.map_replicate, List.any_replicate]
+    have hk0 : ¬ (k + 1 = 0) := by omega
+    have hf' : ns.length < f := by simp at hf; omega
+    have hhd : (List.replicate (k + 1) n1).headD n1 = n1 := by simp [List.replicate_succ]
+    simp only [hk0, if_false, List.isEmpty_cons, Bool.false_eq_true, List.drop_one, List.tail_cons, Bool.or_false, hhd, hpd,
+      false_and]
+    by_cases hsk : n1.flags.skipped = true
+    · -- a position without data in every subset
+      have hcb : colBits col = [] := by
+        cases col with
+        | nil => rfl
+        | cons m0 _ => rw [colBits_cons, hpos.skipped m0 (by simp), hsk]; simp
+      rw [hcb, List.nil_append] at hb
+      simp only [hsk, if_true]
+      obtain ⟨st', e, hinv, htd, hdn, hbt⟩ := ih cols' f ddo1
+        { r := st.r, invalid := st.invalid, ddos := List.replicate (k + 1) ddo1,
+          dones := List.zipWith (fun x1 x2 => x1 :: x2) (List.replicate (k + 1) n1) st.dones,
+          todos := List.replicate (k + 1) ns, pendingDelayed := false, early := st.early } tail
+        hf' hrest hps rfl rfl (by simp [hdl]) rfl hI hb
+      refine ⟨st', e, hinv, htd, ?_, hbt⟩
+      rw [hdn]
+      simp only [List.zipWith_cons_cons, pushCols, decPos, hsk, if_true]
+    · have hns : n1.flags.skipped = false := by simpa using hsk
+      have hcok := hpos.ok hns
+      have hcb : colBits col = afColBits col ++ bodyColBits col := by
+        cases col with
+        | nil => exact absurd rfl hcok.ne
+        | cons m0 _ => rw [colBits_cons, hpos.skipped m0 (by simp), hns]; simp
+      rw [hcb] at hb
+      have hlen := hpos.len
+      obtain ⟨r2, e2, hb2, hI2⟩ := readPosition_roundtrip n1 col hcok hns st.r hI (cols'.flatMap colBits ++ tail)
+        (by rw [hb]) g hfull (by rw [hn, hlen])
+      rw [hlen] at e2
+      unfold readPosition at e2
+      simp only [hns, Bool.false_eq_true, if_false]
+      cases hga : getAfCompressed st.r (List.replicate (k + 1) n1) g with
+      | none => rw [hga] at e2; simp at e2
+      | some p =>
+        obtain ⟨r1, col2⟩ := p
+        rw [hga] at e2
+        simp only at e2
+        -- no new reference value is installed, no delayed replication is pending
+        have hddos : List.zipWith (fun ddo n => applyOpCrefval T ddo n) (List.replicate (k + 1) ddo1) (col.map (decElem n1)) =
+            List.replicate (k + 1) ddo1 := by
+          have := zipWith_replicate_left_const (fun ddo n => applyOpCrefval T ddo n) ddo1 ddo1 (col.map (decElem n1)) (by
+            intro x hx
+            obtain ⟨m, _, rfl⟩ := List.mem_map.mp hx
+            unfold applyOpCrefval
+            rw [(decElem_shape n1 m hcok.notIeee).1]
+            simp [hnc])
+          simpa [hlen] using this
+        have hpend : (decide (Desc.f n1.desc = 1) && decide (Desc.y n1.desc = 0)) = false := by
+          by_contra hc
+          have hc' : (decide (Desc.f n1.desc = 1) && decide (Desc.y n1.desc = 0)) = true := by simpa using hc
+          simp [hc', hns] at hnd
+        obtain ⟨st', e, hinv, htd, hdn, hbt⟩ := ih cols' f ddo1
+          { r := r2, invalid := st.invalid, ddos := List.replicate (k + 1) ddo1,
+            dones := List.zipWith (fun x1 x2 => x1 :: x2) (col.map (decElem n1)) st.dones,
+            todos := List.replicate (k + 1) ns, pendingDelayed := false } tail
+          hf' hrest hps rfl rfl (by simp [hdl, hlen]) rfl hI2 hb2
+        refine ⟨st', ?_, hinv, htd, ?_, hbt⟩
+        · cases ht : n1.enc.type <;> simp only [ht] at e2 ⊢ <;>
+            first
+              | (simp only [e2, hddos, hpend, Bool.not_false, Bool.true_and]; exact e)
+              | (simp only [Option.some.injEq, Prod.mk.injEq] at e2
+                 obtain ⟨h1, h2⟩ := e2
+                 subst h1; subst h2
+                 simp only [hddos, hpend, Bool.not_false, Bool.true_and]; exact e)
+        · rw [hdn]
+          simp only [List.zipWith_cons_cons, pushCols, decPos, hns, Bool.false_eq_true, if_false]
+
 end Bufr
